@@ -1,9 +1,255 @@
-"""E3: Kani on mechanically extracted text (placeholder until built)."""
+"""E3: Kani on mechanically extracted text (bounded).
+
+For each family under contracts/xkani/<family>/ the items listed in
+contracts/xkani/families.py are cut verbatim out of /repo's working tree on
+every run and written to src/extracted.rs of a scratch copy of the family's
+small crate (shim + harnesses), which `cargo kani` then checks.  Sizes are
+concrete, contents symbolic: every obligation here is *bounded*."""
+import hashlib
+import importlib.util
+import json
+import os
+import re
+import shutil
+
+import e1
+import extract
+from core import (FAIL, NCPU, PASS, REPO, SCRATCH, UNDECIDED, VERIF, Lock, Obligation, Result,
+                  parse_annots, run, sha256_file, write_if_changed)
+
+E3DIR = os.path.join(SCRATCH, "e3")
+XK = os.path.join(VERIF, "contracts", "xkani")
+
+
+def _families():
+    p = os.path.join(XK, "families.py")
+    spec = importlib.util.spec_from_file_location("xk_families", p)
+    m = importlib.util.module_from_spec(spec)
+    spec.loader.exec_module(m)
+    return m.FAMILIES
 
 
 def registry():
-    return []
+    obls = []
+    for fam, cfg in _families().items():
+        d = os.path.join(XK, fam, "src")
+        for fn in sorted(os.listdir(d)):
+            if not fn.startswith("harness") or not fn.endswith(".rs"):
+                continue
+            mod = fn[:-3]
+            text = open(os.path.join(d, fn)).read()
+            for kv in parse_annots(text):
+                if not kv.get("_fn"):
+                    raise RuntimeError(f"{fam}/{fn}:{kv['_line']}: annotation without fn")
+                flags = tuple(f for f in kv.get("flags", "").split(",") if f)
+                obls.append(Obligation(
+                    kv["id"], kv["props"].split(","), "e3-kani-extract", kv.get("level", "bounded"),
+                    kv.get("tier", "quick"), kv.get("expect", "pass"),
+                    anchor=kv.get("anchor", cfg.get("anchor", fam)), desc=kv.get("desc", ""),
+                    bound=kv.get("bound", cfg.get("bound", "")), flags=flags,
+                    budget=int(kv.get("budget", "300")), harness=f"{mod}::{kv['_fn']}", crate=fam))
+    return obls
+
+
+# ------------------------------------------------------------------ extraction
+def extract_family(fam, cfg):
+    """Returns (text of extracted.rs, report, errors, sources)"""
+    out = [cfg.get("header", "use crate::shim::*;\n")]
+    report, errors, sources = [], [], {}
+    cache = {}
+
+    def read(rel):
+        if rel not in cache:
+            p = os.path.join(REPO, rel)
+            cache[rel] = open(p).read()
+            sources[rel] = {"file": rel, "sha256": sha256_file(p)}
+        return cache[rel]
+
+    for grp in cfg["groups"]:
+        items_txt = []
+        for it in grp["items"]:
+            rep = {"item": it.get("name") or it.get("fn") or it.get("arm"), "file": it["file"], "rewrites": []}
+            try:
+                src = read(it["file"])
+                kind = it["kind"]
+                if kind == "fn":
+                    if it.get("impl"):
+                        info = extract.find_fn_in_impls(src, it["fn"], it["impl"])
+                    else:
+                        info = extract.find_fn(src, it["fn"], 0, len(src))
+                    if it.get("inner_fn"):
+                        info = extract.find_fn(src, it["inner_fn"], info["body_start"], info["body_end"])
+                    text = src[info["sig_start"]:info["body_end"]]
+                    rep["source"] = f"{it['file']}:{extract.line_of(src, info['fn_kw'])}-{extract.line_of(src, info['body_end'])}"
+                elif kind == "block":
+                    # a braced item found by its header regex (struct / impl / const), whole block verbatim
+                    ms = list(re.finditer(it["header"], src, re.M))
+                    if len(ms) != 1:
+                        raise extract.AnchorLost(f"header {it['header']!r} matches {len(ms)} times")
+                    b = src.index("{", ms[0].end() - 1)
+                    e = extract.match_brace(src, b)
+                    text = src[ms[0].start():e]
+                    rep["source"] = f"{it['file']}:{extract.line_of(src, ms[0].start())}-{extract.line_of(src, e)}"
+                elif kind == "lines":
+                    # one or more whole statements/items found by a regex (e.g. a const)
+                    ms = list(re.finditer(it["regex"], src, re.M))
+                    if len(ms) != 1:
+                        raise extract.AnchorLost(f"regex {it['regex']!r} matches {len(ms)} times")
+                    text = ms[0].group(0)
+                    rep["source"] = f"{it['file']}:{extract.line_of(src, ms[0].start())}"
+                elif kind == "closure_in_arm":
+                    if it.get("impl"):
+                        info = extract.find_fn_in_impls(src, it["fn"], it["impl"])
+                    else:
+                        info = extract.find_fn(src, it["fn"], 0, len(src))
+                    abody, is_block, span = extract.find_arm(src, it["arm"], info["body_start"], info["body_end"])
+                    m = re.search(it.get("closure", r"\|env\|\s*\{"), abody)
+                    if not m:
+                        raise extract.AnchorLost("closure not found in arm")
+                    b = m.end() - 1
+                    e = extract.match_brace(abody, b)
+                    text = it["sig"] + " {" + abody[b + 1:e - 1] + "}"
+                    rep["source"] = f"{it['file']}:{extract.line_of(src, span[0])}-{extract.line_of(src, span[1])} (closure in arm)"
+                elif kind == "range_in_fn":
+                    # statements of a fn body between two regex anchors (inclusive start, exclusive end)
+                    if it.get("impl"):
+                        info = extract.find_fn_in_impls(src, it["fn"], it["impl"])
+                    else:
+                        info = extract.find_fn(src, it["fn"], 0, len(src))
+                    body = src[info["body_start"]:info["body_end"]]
+                    ms = list(re.finditer(it["start"], body, re.M))
+                    if len(ms) != 1:
+                        raise extract.AnchorLost(f"start anchor matches {len(ms)} times")
+                    s0 = ms[0].start()
+                    if it.get("brace_block"):
+                        b = body.index("{", ms[0].end() - 1)
+                        e0 = extract.match_brace(body, b)
+                    else:
+                        me = re.compile(it["end"], re.M).search(body, ms[0].end())
+                        if not me:
+                            raise extract.AnchorLost("end anchor not found")
+                        e0 = me.start()
+                    text = it["sig"] + " {\n" + it.get("prologue", "") + body[s0:e0] + it.get("epilogue", "") + "\n}"
+                    rep["source"] = f"{it['file']}:{extract.line_of(src, info['body_start'] + s0)}-{extract.line_of(src, info['body_start'] + e0)} (block of {it['fn']})"
+                else:
+                    raise ValueError(kind)
+                rep["verbatim_sha256"] = hashlib.sha256(text.encode()).hexdigest()
+                rep["verbatim_lines"] = text.count("\n") + 1
+                for rid, pat, rpl, why in it.get("rewrites", ()) + cfg.get("rewrites", ()):
+                    new, n = re.subn(pat, rpl, text)
+                    if n:
+                        rep["rewrites"].append({"rewrite": rid, "count": n, "what": why, "pattern": pat})
+                        text = new
+                bad = cfg.get("forbid")
+                if bad and it.get("check_forbid", True):
+                    m = re.search(bad, text)
+                    if m:
+                        raise extract.AnchorLost(f"extracted text uses `{m.group(0)}`: outside what the shim can model (parametricity guard)")
+                items_txt.append(text)
+            except extract.AnchorLost as ex:
+                rep["error"] = str(ex)
+                errors.append(f"{rep['item']}: {ex}")
+            report.append(rep)
+        pre = grp.get("prefix", "")
+        if grp.get("wrap"):
+            out.append(pre + grp["wrap"] + " {\n" + "\n".join(items_txt) + "\n}\n")
+        else:
+            out.append(pre + "\n".join(items_txt) + "\n")
+    return "\n".join(out), report, errors, list(sources.values())
+
+
+def prepare(fam, cfg):
+    dst = os.path.join(E3DIR, fam)
+    src = os.path.join(XK, fam)
+    os.makedirs(dst, exist_ok=True)
+    rc, out, _ = run(["rsync", "-a", "--delete", "--exclude", "/target", src + "/", dst + "/"])
+    text, report, errors, sources = extract_family(fam, cfg)
+    with open(os.path.join(dst, "src", "extracted.rs"), "w") as f:
+        f.write(text)
+    return dst, report, errors, sources
 
 
 def run_obligations(obls, log):
-    return [], None, {}
+    results = []
+    info = {"cmds": [], "extraction": {}}
+    prep = type("P", (), {})()
+    prep.sources = []
+    fams = _families()
+    with Lock("e3"):
+        for fam in sorted({o.crate for o in obls}):
+            cfg = fams[fam]
+            mine = [o for o in obls if o.crate == fam]
+            dst, report, errors, sources = prepare(fam, cfg)
+            prep.sources += sources
+            info["extraction"][fam] = {"items": report, "dropped": cfg.get("dropped", "")}
+            if errors:
+                for o in mine:
+                    results.append(Result(o, UNDECIDED, detail="extraction: " + "; ".join(errors)))
+                continue
+            groups = {}
+            for o in mine:
+                key = (tuple(sorted(f for f in o.flags if f in ("nofloat",))), o.budget)
+                groups.setdefault(key, []).append(o)
+            for (flags, budget), os_ in sorted(groups.items()):
+                heavy = any("heavy" in o.flags for o in os_)
+                jobs = min(NCPU, 4) if heavy else NCPU
+                outjson = os.path.join(E3DIR, f"out-{fam}-{os.getpid()}.json")
+                if os.path.exists(outjson):
+                    os.remove(outjson)
+                cmd = ["cargo", "kani", "--target-dir", os.path.join(E3DIR, "target-" + fam),
+                       "-Z", "function-contracts", "-Z", "stubbing", "-Z", "unstable-options", "--exact",
+                       "-j", str(jobs), "--output-format", "terse", "--export-json", outjson,
+                       "--harness-timeout", f"{budget}s"]
+                if "nofloat" in flags:
+                    cmd.append("--no-overflow-checks")
+                for o in os_:
+                    cmd += ["--harness", o.harness]
+                info["cmds"].append(f"(cd <scratch>/e3/{fam}; " + " ".join(cmd[:12]) + f" … {len(os_)} harnesses)")
+                log(f"[e3] cargo kani family={fam} harnesses={len(os_)} budget={budget}s jobs={jobs}")
+                wall = budget * (len(os_) / jobs + 1) + 900
+                rc, out, dt = run(cmd, cwd=dst, timeout=wall, mem_gb=28)
+                with open(os.path.join(E3DIR, f"last-{fam}.log"), "w") as f:
+                    f.write(out)
+                results += e1._parse(outjson, out, os_, rc)
+                if os.path.exists(outjson):
+                    os.remove(outjson)
+    return results, prep, info
+
+
+def playback(obl, log):
+    """Concrete playback of a failed E3 harness, executed natively against the extracted text."""
+    fams = _families()
+    info = {"engine": "e3", "harness": obl.harness, "family": obl.crate}
+    with Lock("e3"):
+        dst, report, errors, sources = prepare(obl.crate, fams[obl.crate])
+        cmd = ["cargo", "kani", "--target-dir", os.path.join(E3DIR, "target-" + obl.crate),
+               "-Z", "function-contracts", "-Z", "stubbing", "-Z", "unstable-options", "--exact",
+               "-Z", "concrete-playback", "--concrete-playback=print", "--harness", obl.harness,
+               "--harness-timeout", f"{max(obl.budget, 600)}s"]
+        if "nofloat" in obl.flags:
+            cmd.append("--no-overflow-checks")
+        rc, out, dt = run(cmd, cwd=dst, timeout=obl.budget * 3 + 900, mem_gb=28)
+        i0 = out.rfind("SUMMARY:")
+        info["kani_output_tail"] = out[i0:][-6000:] if i0 >= 0 else out[-3000:]
+        m = re.search(r"```\s*\n(.*?#\[test\].*?)```", out, re.S)
+        if not m:
+            info.update({"concrete_test": None, "confirmed": False, "playback_ran": False,
+                         "note": "kani gave no concrete playback test"})
+            return info
+        test = m.group(1)
+        info["concrete_test"] = test
+        mod = obl.harness.split("::")[0]
+        hp = os.path.join(dst, "src", mod + ".rs")
+        text = open(hp).read()
+        with open(hp, "w") as f:
+            f.write(text + "\n" + test + "\n")
+        tname = re.search(r"fn\s+(kani_concrete_playback_\w+)", test).group(1)
+        rc, out, dt = run(["cargo", "kani", "playback", "-Z", "concrete-playback", "--", tname], cwd=dst, timeout=1800,
+                          env={"CARGO_TARGET_DIR": os.path.join(E3DIR, "target-pb-" + obl.crate)})
+        with open(hp, "w") as f:
+            f.write(text)
+        ran = re.search(r"test result: (\w+)\. (\d+) passed; (\d+) failed", out)
+        info.update({"confirmed": bool(ran and int(ran.group(3)) > 0), "playback_ran": bool(ran),
+                     "playback_tail": out[-3000:],
+                     "note": "replayed natively (rustc) against the text extracted from /repo; the shim stands in for the rest of the interpreter"})
+    return info
